@@ -33,24 +33,6 @@ theorem placed_of_WInv {w : World} {a : Aid} (hI : w.WInv = true) (ha : a < w.n)
       rw [List.getElem?_eq_none (by omega)]; rfl
     rw [this] at hi; cases hi
 
-theorem setSt_back {w1 : World} {a : Aid} (x o : Nat) (ha : a < w1.st.length)
-    (ho : (w1.stOf a).orient = o) :
-    (w1.setSt a { w1.stOf a with orient := x }).setSt a
-      { (w1.setSt a { w1.stOf a with orient := x }).stOf a with orient := o } = w1 := by
-  have h1 : (w1.setSt a { w1.stOf a with orient := x }).stOf a = { w1.stOf a with orient := x } :=
-    stOf_setSt_same _ _ _ ha
-  rw [h1]
-  simp only [setSt, List.set_set]
-  have : ({ w1.stOf a with orient := o } : AgentSt) = w1.stOf a := by
-    cases hs : w1.stOf a
-    simp only [hs] at ho
-    simp [ho]
-  rw [this]
-  have hself : w1.st.set a (w1.stOf a) = w1.st := by
-    simp only [stOf, List.getD_eq_getElem?_getD, List.getElem?_eq_getElem ha, Option.getD_some]
-    exact List.set_getElem_self ha
-  rw [hself]
-
 /-- **C12** for all worlds, agents and actions. -/
 theorem C12_moves (w : World) (c : MoveCall) (hI : w.WInv = true) (ha : c.agent < w.n)
     (hact : (w.stOf c.agent).active = true) (hsp : c.inSpace w = true) :
